@@ -133,7 +133,10 @@ type Replay struct {
 	Unfinished []string        `json:"unfinished,omitempty"`
 	Faults     map[string]int  `json:"faults_fired,omitempty"`
 	Shrink     string          `json:"shrink"`
-	Original   struct {
+	// Crash: the file names a run that killed the process; there is no tape,
+	// the choices are drawn from RunSeed exactly as in the exploration
+	Crash    bool `json:"crash,omitempty"`
+	Original struct {
 		TapeLen  int             `json:"tape_len"`
 		Scenario json.RawMessage `json:"scenario"`
 	} `json:"original"`
@@ -354,6 +357,14 @@ func explore(t *testing.T, h *Harness, job *Job) *Summary {
 			}
 		} else {
 			scn = h.Gen(rand.New(rand.NewPCG(runSeed, 0x5ce)), job.Property, job.Tier, i)
+		}
+		if job.Out != "" {
+			// breadcrumb: if the process dies inside this run (a fatal runtime
+			// error, e.g. an impossible allocation, cannot be recovered), the
+			// runner knows which scenario to re-execute on its own
+			sj, _ := json.Marshal(scn)
+			bc, _ := json.Marshal(map[string]any{"property": job.Property, "tier": job.Tier, "run_index": i, "run_seed": runSeed, "scenario": json.RawMessage(sj), "harness": h.Name})
+			os.WriteFile(job.Out+".cur", bc, 0o644)
 		}
 		res := Execute(t, h, job.Property, job.Tier, scn, runSeed, nil, false)
 		sum.Runs++
@@ -607,7 +618,7 @@ func replay(t *testing.T, h *Harness, job *Job) *Summary {
 		t.Fatal(err)
 	}
 	tape := rp.Tape
-	if tape == nil {
+	if tape == nil && !rp.Crash {
 		tape = []uint32{}
 	}
 	res := Execute(t, h, rp.Property, rp.Tier, scn, rp.RunSeed, tape, true)
